@@ -889,8 +889,8 @@ func hash(s string) uint64 {
 	return h
 }
 
-func TestProp(t *testing.T) {
-	pbt.Main(t, pbt.Prop[Case]{
+func theProp() pbt.Prop[Case] {
+	return pbt.Prop[Case]{
 		ID:   "C17",
 		Rule: "generated Go packages annotated with the documented grammar: swagger:meta (title, TOS, schemes, host, basePath, version, license, contact, consumes, produces), 1-3 swagger:model structs (named or not; scalar and array fields with required / read only / minimum / maximum / multiple of / min-max length / pattern / enum / min-max items / unique, items.* validations, references to other models), 1-3 swagger:response structs (headers with validations; body = model, array of models, inline struct or none), 1-4 routes as swagger:route (tags, summary, description, Consumes / Produces / Schemes / Deprecated / Responses sections) or swagger:operation with a YAML body, each route with a swagger:parameters struct (path, query, header parameters with validations and collection format, body parameter); in 35% of the cases an input spec to merge into; in 30% arbitrary comment lines (annotation fragments, section headers, YAML punctuation, control and non-ASCII characters) are inserted at random positions. The program is scanned in-process by codescan.Run. Oracle, grammar mode: no panic, no error, validate.Spec passes, and every declared fact (one per annotation line) is found at its place in the document with the declared value. Noise mode: no panic. Non-trivial: scan returned; distinct by set of annotation kinds / noise outcome.",
 		Assumptions: []string{
@@ -899,5 +899,11 @@ func TestProp(t *testing.T) {
 		},
 		Gen:   genCase,
 		Check: check,
-	})
+	}
 }
+
+func TestProp(t *testing.T) { pbt.Main(t, theProp()) }
+
+// FuzzProp is the native, coverage-guided entry (thorough tier).
+func FuzzProp(f *testing.F) { pbt.Fuzz(f, theProp()) }
+
